@@ -299,37 +299,43 @@ def expected(kind, pre, ln):
         i = 2
         outs = t
         j = 0
-        seen_keys = []
-        remaining = len(c)
+        order = [k for (k, _, _) in pre.map] if pre is not None else []
+        f, b = 0, len(order)
         exact = kind == "dpq"
         for _ in range(n):
             call, wp, p, wpl, pl = a[i], int(a[i + 1]), int(a[i + 2]), int(a[i + 3]), int(a[i + 4])
             i += 5
+            ck, skip = call_kind(call)
             if j >= len(outs):
                 return None, "iter_mut produced fewer outputs than calls"
             if outs[j] == "s":
-                e, j2 = parse_opt_e(outs, j + 1)
-                j = j2
+                e, j = parse_opt_e(outs, j + 1)
+                if b - f <= skip:
+                    want = None
+                    f = b
+                elif ck == "f":
+                    f += skip
+                    want = order[f]
+                    f += 1
+                else:
+                    b -= skip + 1
+                    want = order[b]
+                if (e[0] if e else None) != want:
+                    return None, "iter_mut answered %s to call %s, the element due is %s (each element at most once)" % (e, call, want)
                 if e is not None:
-                    if e[0] in seen_keys:
-                        return None, "iter_mut yielded element %d twice" % e[0]
                     if c.get(e[0]) != (e[1], e[2]):
-                        return None, "iter_mut yielded %s which is not stored" % (e,)
-                    seen_keys.append(e[0])
-                    remaining -= 1
+                        return None, "iter_mut yielded %s which is not what is stored" % (e,)
                     c[e[0]] = (pl if wpl else e[1], p if wp else e[2])
-                elif exact and remaining != 0:
-                    return None, "iter_mut returned None with %d elements not yet yielded" % remaining
             elif outs[j] == "l":
-                if int(outs[j + 1]) != remaining:
-                    return None, "iter_mut len() = %s with %d elements remaining" % (outs[j + 1], remaining)
+                if int(outs[j + 1]) != b - f:
+                    return None, "iter_mut len() = %s with %d elements remaining" % (outs[j + 1], b - f)
                 j += 2
             elif outs[j] == "h":
                 lo = int(outs[j + 1]); hi = outs[j + 2]
-                if exact and (lo != remaining or hi != str(remaining)):
-                    return None, "iter_mut size_hint() = (%s, %s) with %d elements remaining" % (lo, hi, remaining)
-                if lo > remaining or (hi != "none" and int(hi) < remaining):
-                    return None, "iter_mut size_hint() = (%s, %s) is wrong for %d remaining" % (lo, hi, remaining)
+                if exact and (lo != b - f or hi != str(b - f)):
+                    return None, "iter_mut size_hint() = (%s, %s) with %d elements remaining" % (lo, hi, b - f)
+                if lo > b - f or (hi != "none" and int(hi) < b - f):
+                    return None, "iter_mut size_hint() = (%s, %s) is wrong for %d remaining" % (lo, hi, b - f)
                 j += 3
             elif outs[j] == "u":
                 j += 1
@@ -423,6 +429,15 @@ def j_contents(kind, pre, ln):
     return None
 
 
+def j_nofault(kind, pre, ln):
+    """a panic / abort inside a fault-free operation contradicts every functional property that covers it"""
+    if ln.fault:
+        if ln.op in ("reserve", "reserve_exact") and ln.res == "fault capacity" and int(ln.args[0]) >= 2 ** 61:
+            return None
+        return "%s faulted: %s" % (ln.op, ln.res)
+    return None
+
+
 def log2(n):
     return n.bit_length() - 1 if n > 0 else 0
 
@@ -451,8 +466,9 @@ def j_cost(kind, pre, ln):
         m = n
         if op in ("from_vec", "from_iter", "deser"):
             m = max(n, int(ln.args[0 if op != "from_iter" else 2]))
-        if dt > 16 * m + 32:
-            return "%s on %d elements performed %d comparisons (budget 16n+32)" % (op, m, dt)
+        # Floyd: at most 2n (max-heap) / 7n (min-max heap) comparisons; generous linear budget 7n+8
+        if dt > 7 * m + 8:
+            return "%s on %d elements performed %d comparisons (linear budget 7n+8)" % (op, m, dt)
     elif op == "append":
         es, _ = entries(ln.args, 0)
         m = n + len(es)
@@ -484,71 +500,103 @@ def j_sorted(kind, pre, ln):
         i = 0
         calls = ln.args[1:]
         for call in calls:
+            ck, skip = call_kind(call)
             if i >= len(t):
                 return "fewer outputs than calls"
-            if t[i] == "s":
+            if ck in ("f", "b"):
+                if t[i] != "s":
+                    return "sorted iterator answered %s to an advancing call" % t[i]
                 e, i = parse_opt_e(t, i + 1)
-                if e is None:
-                    if rem:
-                        return "sorted iterator returned None with %d elements remaining" % len(rem)
+                from_max = kind == "pq" or ck == "b"
+                # the elements skipped by nth / nth_back are the `skip` current extremes
+                ps = sorted((v[1] for v in rem.values()), reverse=from_max)
+                if len(ps) <= skip:
+                    if e is not None:
+                        return "sorted iterator yielded %s although only %d elements remained for %s" % (e, len(ps), call)
+                    rem = {}
                     continue
+                if e is None:
+                    return "sorted iterator returned None with %d elements remaining (call %s)" % (len(rem), call)
                 if rem.get(e[0]) != (e[1], e[2]):
                     return "sorted iterator yielded %s which is not among the remaining elements" % (e,)
-                ps = [v[1] for v in rem.values()]
-                if kind == "pq" or call == "b":
-                    if e[2] < max(ps):
-                        return "sorted iterator yielded priority %d while %d remains (a maximum was due)" % (e[2], max(ps))
-                else:
-                    if e[2] > min(ps):
-                        return "sorted iterator yielded priority %d while %d remains (a minimum was due)" % (e[2], min(ps))
+                if e[2] != ps[skip]:
+                    return "sorted iterator yielded priority %d, but the %s due after skipping %d is %d" % (e[2], "maximum" if from_max else "minimum", skip, ps[skip])
+                # remove the skipped extremes (identity among ties is not observable: remove by priority) and the yielded one
                 del rem[e[0]]
-            elif t[i] == "l":
+                for pr in ps[:skip]:
+                    for k2 in list(rem):
+                        if rem[k2][1] == pr:
+                            del rem[k2]
+                            break
+            elif ck == "l":
+                if t[i] == "u":
+                    i += 1
+                    continue
                 if int(t[i + 1]) != len(rem):
                     return "sorted iterator len() = %s with %d remaining" % (t[i + 1], len(rem))
                 i += 2
-            elif t[i] == "h":
+            elif ck == "h":
                 lo, hi = int(t[i + 1]), t[i + 2]
                 if kind == "dpq" and (lo != len(rem) or hi != str(len(rem))):
                     return "sorted iterator size_hint() = (%s, %s) with %d remaining" % (lo, hi, len(rem))
                 if lo > len(rem) or (hi != "none" and int(hi) < len(rem)):
                     return "sorted iterator size_hint() = (%s, %s) is wrong for %d remaining" % (lo, hi, len(rem))
                 i += 3
-            else:
-                i += 1
     return None
+
+
+def call_kind(c):
+    """('f'|'b'|'l'|'h', skip)"""
+    if c[0] == "n":
+        return "f", int(c[1:])
+    if c[0] == "m":
+        return "b", int(c[1:])
+    return c, 0
 
 
 def j_iters(kind, pre, ln):
     """C13/C16: iter / into_iter / drain yield each element once (never from both ends), then None forever; exact
-    len and size_hint at every step."""
-    if ln.fault or pre is None or ln.op not in ("iter", "into_iter", "drain"):
+    len and size_hint at every step; nth / nth_back skip exactly the elements they say."""
+    if ln.fault:
+        if ln.op in ("iter", "into_iter", "drain"):
+            return "%s faulted: %s" % (ln.op, ln.res)
         return None
-    rem = dict(pre.contents())
+    if pre is None or ln.op not in ("iter", "into_iter", "drain"):
+        return None
+    order = list(pre.map)
+    f, b = 0, len(order)
     t = ln.res.split()
     calls = ln.args[1:] if ln.op != "drain" else ln.args[2:]
     i = 0
     for call in calls:
+        ck, skip = call_kind(call)
         if i >= len(t):
             return "fewer outputs than calls"
-        if t[i] == "s":
+        if ck in ("f", "b"):
+            if t[i] != "s":
+                return "%s answered %s to an advancing call" % (ln.op, t[i])
             e, i = parse_opt_e(t, i + 1)
-            if e is None:
-                if rem:
-                    return "%s returned None with %d elements remaining" % (ln.op, len(rem))
-                continue
-            if rem.get(e[0]) != (e[1], e[2]):
-                return "%s yielded %s which is not among the remaining elements (yielded twice?)" % (ln.op, e)
-            del rem[e[0]]
-        elif t[i] == "l":
-            if int(t[i + 1]) != len(rem):
-                return "%s len() = %s with %d remaining" % (ln.op, t[i + 1], len(rem))
+            if b - f <= skip:
+                want = None
+                f = b
+            elif ck == "f":
+                f += skip
+                want = order[f]
+                f += 1
+            else:
+                b -= skip
+                b -= 1
+                want = order[b]
+            if e != want:
+                return "%s answered %s to call %s, expected %s (each element once, in order, never from both ends)" % (ln.op, e, call, want)
+        elif ck == "l":
+            if t[i] != "l" or int(t[i + 1]) != b - f:
+                return "%s len() = %s with %d remaining" % (ln.op, t[i + 1], b - f)
             i += 2
-        elif t[i] == "h":
-            if int(t[i + 1]) != len(rem) or t[i + 2] != str(len(rem)):
-                return "%s size_hint() = (%s, %s) with %d remaining" % (ln.op, t[i + 1], t[i + 2], len(rem))
+        elif ck == "h":
+            if t[i] != "h" or int(t[i + 1]) != b - f or t[i + 2] != str(b - f):
+                return "%s size_hint() = (%s, %s) with %d remaining" % (ln.op, t[i + 1], t[i + 2], b - f)
             i += 3
-        else:
-            i += 1
     return None
 
 
@@ -588,8 +636,8 @@ def j_capacity(kind, pre, ln):
 
 JUDGES = {
     "C01": [j_extreme], "C02": [j_extreme], "C03": [j_contents], "C04": [j_wf], "C05": [j_cost],
-    "C06": [j_sorted], "C07": [j_contents, j_extreme], "C08": [j_contents, j_extreme], "C09": [j_contents],
-    "C10": [j_wf], "C11": [j_contents, j_extreme], "C12": [j_contents], "C13": [j_iters, j_sorted], "C14": [j_eq, j_contents],
+    "C06": [j_sorted, j_nofault], "C07": [j_contents, j_extreme, j_nofault], "C08": [j_contents, j_extreme, j_nofault], "C09": [j_contents, j_nofault],
+    "C10": [j_wf], "C11": [j_contents, j_extreme], "C12": [j_contents], "C13": [j_iters, j_sorted, j_nofault], "C14": [j_eq, j_contents],
     "C15": [j_contents, j_extreme, j_wf], "C16": [j_contents, j_iters, j_wf], "C17": [j_capacity, j_contents],
     "C18": [j_contents, j_extreme],
 }
@@ -598,7 +646,7 @@ JUDGES = {
 def judge_case(prop, kind, lines):
     """lines: list of raw trace lines of one case (impl side).  Returns (index, message) of the first line on which a
     judge of `prop` fails, or None."""
-    pre = None
+    pre = parse_snap("m 0 h 0 q 0 s 0")   # every case starts from a fresh (`new`) queue
     k = kind
     for idx, text in enumerate(lines):
         try:
